@@ -226,6 +226,60 @@ theorem semKeyWF_exec (g : G) (a : Action) (h : SemKeyWF g) : SemKeyWF (exec g a
           · cases hc'
         · rw [step_calls_other g t i t' e] at hc'; exact h.frees t' st' hc'
 
+  | fail t e =>
+    -- a scripted failure: same shape as a step, no handle appears
+    simp only [exec]
+    cases hc : g.calls t with
+    | none => rw [fail_none g t e hc]; exact h
+    | some c =>
+      refine ⟨?_, ?_, ?_⟩
+      · intro h' p y hy
+        rw [fail_hs] at hy
+        exact h.handles h' p y hy
+      · intro t' hid' st' s' hc' hpc'
+        by_cases e' : t' = t
+        · subst e'
+          rw [fail_calls_self g t' e c hc] at hc'
+          split at hc'
+          · rename_i c' hcont
+            simp only [Option.some.injEq] at hc'
+            subst hc'
+            cases c with
+            | shmNew hid st =>
+              obtain ⟨st'', e'', ha⟩ := call_after_cont_shmNew hid st _ _ hcont
+              simp only [Call.shmNew.injEq] at e''
+              obtain ⟨_, rfl⟩ := e''
+              rcases shmNew_after_sem st st' _ s' ha hpc' with ⟨h1, h2⟩ | ⟨s0, hp0, h1, h2⟩
+              · rw [h1, h2]
+              · rw [h1, h2]; exact h.news t' hid st s0 hc hp0
+            | _ => exact absurd rfl (call_after_cont_not_shmNew _ _ _ hcont (by intro a b; simp) hid' st')
+          · cases hc'
+        · rw [fail_calls_other g t e t' e'] at hc'; exact h.news t' hid' st' s' hc' hpc'
+      · intro t' st' hc'
+        by_cases e' : t' = t
+        · subst e'
+          rw [fail_calls_self g t' e c hc] at hc'
+          split at hc'
+          · rename_i c' hcont
+            simp only [Option.some.injEq] at hc'
+            subst hc'
+            cases c with
+            | shmFree st =>
+              obtain ⟨st'', e'', ha⟩ := call_after_cont_shmFree st _ _ hcont
+              simp only [Call.shmFree.injEq] at e''
+              subst e''
+              obtain ⟨hh, hs⟩ := shmFree_after_sem st st' _ ha
+              obtain ⟨f1, f2⟩ := h.frees t' st hc
+              rw [hh]
+              refine ⟨f1, ?_⟩
+              intro s' hs'
+              rcases hs s' hs' with h1 | ⟨s0, hp0, h1⟩
+              · rw [h1]; exact f1
+              · rw [h1]; exact f2 s0 hp0
+            | _ => exact absurd rfl (call_after_cont_not_shmFree _ _ _ hcont (by intro a; simp) st')
+          · cases hc'
+        · rw [fail_calls_other g t e t' e'] at hc'; exact h.frees t' st' hc'
+
 theorem semKeyWF_execAll (as : List Action) : ∀ g, SemKeyWF g → SemKeyWF (execAll g as) := by
   induction as with
   | nil => intro g h; exact h
@@ -268,7 +322,7 @@ theorem quiet_user (g : G) (hW : SemKeyWF g) (n : Nat)
 /-! ## who is inside a lock-bracketed critical section -/
 
 def isAcq (o : ObjId) (e : Ev) : Bool := decide (e.sys = .semWait o ∧ e.res = .ok 0)
-def isRel (o : ObjId) (e : Ev) : Bool := decide (e.sys = .semPost o)
+def isRel (o : ObjId) (e : Ev) : Bool := decide (e.sys = .semPost o ∧ e.res = .ok 0)
 
 /-- the threads that have acquired object `o` and not released it yet, read off a log (newest event first) -/
 def holders (o : ObjId) : List Ev → List Tid
@@ -328,6 +382,10 @@ theorem exec_log_suffix (g : G) (a : Action) : ∃ evs, (exec g a).log = evs ++ 
     cases hc : g.calls t with
     | none => exact ⟨[], by simp [exec, step_none g t i hc]⟩
     | some c => exact ⟨[_], by simp only [exec, step_log g t i c hc]; rfl⟩
+  | fail t e =>
+    cases hc : g.calls t with
+    | none => exact ⟨[], by simp [exec, fail_none g t e hc]⟩
+    | some c => exact ⟨[_], by simp only [exec, fail_log g t e c hc]; rfl⟩
 
 theorem execAll_log_suffix (as : List Action) : ∀ g, ∃ evs, (execAll g as).log = evs ++ g.log := by
   induction as with
